@@ -49,6 +49,8 @@ def load_mutants():
                     continue
                 props = [meta['breaks_property']]
             else:
+                if meta.get('known_false_alarm'):
+                    continue  # documented limitation (DESIGN.md section 8): kept for the record, not a negative control
                 props = ['C%02d' % i for i in range(1, 17)]
             out.append(dict(id='%s:%s' % (sub, name), properties=props, expect=expect, patch=pp, source=sub))
     return out
